@@ -621,15 +621,24 @@ class Translator:
             if mm:
                 self.report.hit('R7.throw_GeographicErr')
                 self.report.dropped.append('message: ' + re.sub(r'\s+', ' ', expr.strip())[:200])
-                out.append('VERIF_THROW(%s)%s' % (self._ret_default(ret_ctype), nl))
+                # R7b: arithmetic conversions inside the dropped message are still evaluated (and discarded),
+                # so that undefined behaviour while building the message is not hidden by the rule
+                keep = []
+                for cm in re.finditer(r'(?<![\w.>])int\s*\(', expr):
+                    ce = match_close(expr, cm.end() - 1)
+                    inner = expr[cm.end():ce]
+                    if re.search(r'[a-zA-Z_]', inner) and not re.search(r'\b(size|length|str|substr)\b', inner):
+                        keep.append('(void)int(%s);' % ' '.join(inner.split()))
+                        self.report.hit('R7b.kept_conversion_in_message')
+                out.append('{ %s VERIF_THROW(%s); }%s' % (' '.join(keep), self._ret_default(ret_ctype), nl))
             elif expr.strip() == '':
                 self.report.hit('R7.rethrow')
-                out.append('VERIF_THROW_OTHER(%s)%s' % (self._ret_default(ret_ctype), nl))
+                out.append('{ VERIF_THROW_OTHER(%s); }%s' % (self._ret_default(ret_ctype), nl))
             else:
                 self.report.hit('R7.throw_other_type')
                 self.report.dropped.append('throw of non-GeographicErr: ' + re.sub(r'\s+', ' ', expr.strip())[:200])
-                out.append('VERIF_THROW_OTHER(%s)%s' % (self._ret_default(ret_ctype), nl))
-            i = semi  # keep the ';'
+                out.append('{ VERIF_THROW_OTHER(%s); }%s' % (self._ret_default(ret_ctype), nl))
+            i = semi + 1  # the replacement is a braced block; the ';' of the throw statement is consumed
         return ''.join(out)
 
     @staticmethod
@@ -898,13 +907,13 @@ class Translator:
         inserts = []
         for m in pat.finditer(body):
             pc = match_close(body, m.end() - 1)
-            semi = self._stmt_end_from(body, pc)
+            semi = self._stmt_end_from(body, pc + 1)
             inserts.append(semi)
         for semi in sorted(set(inserts), reverse=True):
             after = body[semi + 1:]
             if re.match(r'\s*else\b', after):
                 raise ExtractError('may-throw call directly before else: needs braces (not covered by R7)')
-            body = body[:semi + 1] + ' VERIF_PROPAGATE(%s);' % self._ret_default(ret_ctype) + body[semi + 1:]
+            body = body[:semi + 1] + ' { VERIF_PROPAGATE(%s); }' % self._ret_default(ret_ctype) + body[semi + 1:]
             self.report.hit('R7.propagate')
         return body
 
